@@ -25,6 +25,59 @@ func randConstraintProblem(r *rand.Rand, maxN, maxCons, W int) (front string, n 
 	return
 }
 
+// coveringProblem: mostly positive clauses / at-least-k constraints over variables that all carry a cost.
+func coveringProblem(r *rand.Rand) (front string, n int, strict bool, cons []gen.M, obj gen.M) {
+	n = 3 + r.Intn(5)
+	front = []string{"slicenb", "pb", "card"}[r.Intn(3)]
+	m := 2 + r.Intn(n+1)
+	for i := 0; i < m; i++ {
+		k := 2 + r.Intn(2)
+		if k > n {
+			k = n
+		}
+		lits := gen.DistinctLits(r, n, k)
+		for j := range lits {
+			if lits[j] < 0 && r.Intn(5) > 0 {
+				lits[j] = -lits[j]
+			}
+		}
+		if front != "slicenb" && r.Intn(3) == 0 && k >= 3 {
+			cons = append(cons, gen.Ctor("atleast", lits, nil, 2))
+		} else {
+			cons = append(cons, gen.Clause(lits...))
+		}
+	}
+	lits := make([]int, n)
+	w := make([]int, n)
+	for i := range lits {
+		lits[i] = i + 1
+		if r.Intn(8) == 0 {
+			lits[i] = -lits[i]
+		}
+		w[i] = 1 + r.Intn(3)
+	}
+	nn := n
+	if front != "slicenb" {
+		nn = maxVarOfCons(cons)
+		lits, w = lits[:nn], w[:nn]
+	}
+	return front, nn, front == "slicenb", cons, gen.M{"lits": lits, "w": w}
+}
+
+func distinctVars(ls []int) bool {
+	seen := map[int]bool{}
+	for _, l := range ls {
+		if l < 0 {
+			l = -l
+		}
+		if seen[l] {
+			return false
+		}
+		seen[l] = true
+	}
+	return true
+}
+
 func maxVarOfCons(cons []gen.M) int {
 	m := 0
 	for _, c := range cons {
@@ -97,6 +150,10 @@ func init() {
 				obj := gen.NoObj()
 				if hasObj {
 					obj = gen.RandObj(r, n, 0, 3)
+				}
+				if r.Intn(2) == 0 { // covering problems: the first model found is rarely optimal
+					front, n, strict, cons, obj = coveringProblem(r)
+					hasObj = true
 				}
 				cfg := gen.Cfg(false, 0, 0, false, false, true)
 				var ev []gen.M
@@ -239,6 +296,18 @@ func init() {
 							nn = 1
 						}
 						c := gen.RandAppendCtor(r, nn, false, r.Intn(3) == 0)
+						if len(cons) > 0 && r.Intn(6) == 0 {
+							// a conjunction of literals that falsifies an existing constraint: every literal is
+							// individually possible, the contradiction only shows through propagation
+							b := cons[r.Intn(len(cons))]
+							if ls := b["lits"].([]int); b["k"] == "clause" && len(ls) >= 2 && distinctVars(ls) {
+								neg := make([]int, len(ls))
+								for j, l := range ls {
+									neg[j] = -l
+								}
+								c = gen.Ctor("atleast", neg, nil, len(neg))
+							}
+						}
 						if mv := maxVarOfCons([]gen.M{c}); mv > cur {
 							cur = mv
 						}
